@@ -202,3 +202,7 @@ func bridgeReqs(ws []*goattypes.WithdrawalRequest) goattypes.BridgeRequests {
 type cmtPub = cmtsecp.PubKey
 
 type wireTxOut = wire.TxOut
+
+type bigInt = big.Int
+
+var bigE10 = big.NewInt(10_000_000_000)
